@@ -1083,8 +1083,8 @@ pub fn run(rep: &mut Report) {
     rep.assume("console appenders are configured tty_only so that nothing is printed by the harness; their behaviour is C18's business");
     rep.assume("for degenerate numbers either rejection, dropping or acceptance is allowed; only totality and the rest of the configuration are judged");
     let thorough = rep.tier == "thorough";
-    run_cases(rep, "equivalence", if thorough { 3000 } else { 160 }, check_equivalence);
-    run_cases(rep, "injection", if thorough { 30_000 } else { 2_500 }, check_injection);
+    run_cases(rep, "equivalence", if thorough { 4000 } else { 400 }, check_equivalence);
+    run_cases(rep, "injection", if thorough { 40_000 } else { 8_000 }, check_injection);
     rep.require(rep.counter("format_sets_compared") > 50, "fewer than 50 complete format sets compared");
     rep.require(rep.counter("rolling_layouts_compared") > 20, "fewer than 20 rolling layouts compared");
     rep.require(rep.set_size("injection_kinds") >= 20, "fewer than 20 injection kinds exercised");
